@@ -105,17 +105,17 @@ theorem mkInstance_spec (lbG : Int) (M : Matrix) (mult : Int) (I : Inst)
     (h : mkInstance lbG M mult = some I) :
     I.stored = M ∧ I.n = M.length ∧ 2 ≤ I.n ∧ Square M I.n ∧ I.ub = sumFar M I.n ∧
     I.lb = max lbG (sumNear M I.n) ∧ 0 ≤ sumNear M I.n ∧ I.sym = isSymmetricB M I.n ∧
-    I.ub ≤ LIMIT + 1 ∧ I.lb ≤ I.ub ∧ (∀ i < I.n, entry M i i = 0) := by
+    I.ub ≤ LIMIT + 1 ∧ I.lb ≤ I.ub ∧ (∀ r ∈ M, ∀ v ∈ r, 0 ≤ v) ∧ (∀ i < I.n, entry M i i = 0) := by
   unfold mkInstance at h
   simp only [] at h
   repeat' split at h
   all_goals try (simp at h; done)
-  rename_i h1 h2 h3 h4 h5 h6 h7 h8 x t ht h9
+  rename_i h1 h2 h3 hnn h4 h5 h6 h7 h8 x t ht h9
   simp at h
   subst h
-  simp at h9 h3 h4 h1 h2 h6 h7
+  simp at h9 h3 hnn h4 h1 h2 h6 h7
   simp
-  refine ⟨h9, by omega, ⟨rfl, ?_⟩, by omega, by omega, by omega, ?_⟩
+  refine ⟨h9, by omega, ⟨rfl, ?_⟩, by omega, by omega, by omega, hnn, ?_⟩
   · intro r hr; exact h3 r hr
   · exact h4
 
@@ -187,14 +187,25 @@ theorem instance_tour_bounds (M : Matrix) (mult : Int) (I : Inst) (x : List Nat)
   omega
 
 /-- **no overflow**: on a non-negative matrix every intermediate value of the int64 accumulator
-lies between 0 and the final tour length, which for an accepted instance is at most
+lies between 0 and the final tour length (accepted matrices are non-negative), which for an accepted instance is at most
 `10^15 + 1 < 2^63` — whatever integer type stores the matrix -/
 theorem tourLen_no_overflow (M : Matrix) (mult : Int) (I : Inst) (x : List Nat)
-    (h : mkInstance 0 M mult = some I) (hp : IsPerm x I.n) (hnn : ∀ i j, 0 ≤ entry M i j) :
+    (h : mkInstance 0 M mult = some I) (hp : IsPerm x I.n) :
     ∀ p ∈ tourLenPartials I.stored x 0 (x.getLastD 0), 0 ≤ p ∧ p < 2 ^ 63 := by
   intro p hp'
   have hb := (instance_tour_bounds M mult I x h hp).2
-  obtain ⟨hs, _, _, _, _, _, _, _, hub, _⟩ := mkInstance_spec 0 M mult I h
+  obtain ⟨hs, _, _, _, _, _, _, _, hub, _, hnn0, _⟩ := mkInstance_spec 0 M mult I h
+  have hnn : ∀ i j, 0 ≤ entry M i j := by
+    intro i j
+    unfold entry
+    by_cases hi : i < M.length
+    · by_cases hj : j < (M[i]).length
+      · simp only [List.getD_eq_getElem?_getD, List.getElem?_eq_getElem hi, Option.getD_some,
+          List.getElem?_eq_getElem hj]
+        exact hnn0 _ (List.getElem_mem hi) _ (List.getElem_mem hj)
+      · simp [List.getD_eq_getElem?_getD, List.getElem?_eq_getElem hi,
+          List.getElem?_eq_none (Nat.le_of_not_lt hj)]
+    · simp [List.getD_eq_getElem?_getD, List.getElem?_eq_none (Nat.le_of_not_lt hi)]
   rw [hs] at hp' hb
   have := partials_bounded M hnn x 0 (x.getLastD 0) (by omega) p hp'
   unfold tourLen at hb
